@@ -1242,19 +1242,21 @@ class FortranFile:
             line_no, forward=forward, backward=backward, pp_content=pp_content
         )
         word_range = Range(-1, -1)
+        # The lines keep their letter case: lower-casing can change the length of a
+        # line (e.g. U+0130 in a character literal) and with it all later columns
+        find_word_lower = word.lower()
         if curr_line is not None:
-            find_word_lower = word.lower()
-            word_range = find_word_in_line(curr_line.lower(), find_word_lower)
+            word_range = find_word_in_line(curr_line, find_word_lower)
         if backward and (word_range.start < 0):
             back_lines.reverse()
             for i, line in enumerate(back_lines):
-                word_range = find_word_in_line(line.lower(), find_word_lower)
+                word_range = find_word_in_line(line, find_word_lower)
                 if word_range.start >= 0:
                     line_no -= i + 1
                     return line_no, word_range
         if forward and (word_range.start < 0):
             for i, line in enumerate(forward_lines):
-                word_range = find_word_in_line(line.lower(), find_word_lower)
+                word_range = find_word_in_line(line, find_word_lower)
                 if word_range.start >= 0:
                     line_no += i + 1
                     return line_no, word_range
